@@ -653,6 +653,8 @@ class ExprMixin:
             return VBuiltin('match.' + attr, base)
         if isinstance(base, VPy):
             return VBuiltin('py.' + attr, base)
+        if attr == '__class__' and isinstance(base, (VTuple, VInt, VBool, VStr, VNone, VFloat)):
+            return VClass({VTuple: 'tuple', VInt: 'int', VBool: 'bool', VStr: 'str', VNone: 'NoneType', VFloat: 'float'}[type(base)])
         if isinstance(base, VTuple):
             return VBuiltin('tuple.' + attr, base)
         if isinstance(base, (VInt, VBool)):
